@@ -360,6 +360,39 @@ def _decide(h, meta, cfg, r):
                 shutil.copy(ipath, rp)
                 r['replay'] = rp
                 return
+            if mode == 'R' and attempts == 1 and ins['f64']:
+                # a real-arithmetic model is an arbitrary rational point; whether it survives rounding to doubles is
+                # luck (an exact cancellation, a zero pivot). Ask once for a model on a dyadic grid (multiples of 1/8,
+                # magnitude <= 1000): such inputs are doubles and small computations on them are exact.
+                grid = []
+                for k in sorted(ins['f64']):
+                    grid += [f'(declare-fun vh_grid_{k} () Int)',
+                             f'(assert (= ({UFPFX}in_f64 (_ bv{k} 32)) (/ (to_real vh_grid_{k}) 8.0)))',
+                             f'(assert (and (<= (- 8000) vh_grid_{k}) (<= vh_grid_{k} 8000)))']
+                qg = lines + grid + [f'(assert (or {" ".join(main)} false))', '(check-sat)']
+                if getq:
+                    qg.append(f'(get-value ({" ".join(getq)}))')
+                vg, og, sg = engine.run_solver(qg, min(cap, 60), cfg['seed'])
+                r['queries'] += 1
+                r['solver_s'] += sg
+                r['grid_model'] = vg
+                if vg == 'sat':
+                    gm = engine.parse_model(og, mode)
+                    gpath = os.path.join(work, 'cex_R_grid.inputs')
+                    write_inputs(gpath, gm)
+                    greps = native_replay(name, gpath)
+                    r['replays'].append(dict(mode='R (dyadic grid)', inputs=describe_inputs(gm), results=[(p, res) for p, res, _ in greps], file=gpath))
+                    gbad = [(p, res) for p, res, _ in greps if res.startswith('FAIL') or res.startswith('PANIC')]
+                    if gbad:
+                        r['verdict'] = 'violation'
+                        r['decided_in'] = 'R (model on a dyadic grid)'
+                        r['detail'] = '; '.join(f'{p}: {res}' for p, res in gbad)
+                        rdir = os.path.join(BUILD, 'replays') if engine.REPO != '/repo' else os.path.join(VERIF, 'replays')
+                        os.makedirs(rdir, exist_ok=True)
+                        rp = os.path.join(rdir, f'{name}.inputs')
+                        shutil.copy(gpath, rp)
+                        r['replay'] = rp
+                        return
             if attempts >= cfg['models'] or mode == 'U':
                 final = ('undecided', f'{mode}: sat, {attempts} model(s) replayed natively without violation')
                 break
@@ -385,6 +418,8 @@ def _decide(h, meta, cfg, r):
         r['verdict'], r['detail'] = final
     if vac_fail and r['verdict'] != 'violation':
         r['verdict'], r['detail'] = vac_fail
+    if r['verdict'] == 'undecided' and not h.get('sufficient'):
+        _native_search(h, work, r, cfg['seed'])
 
 
 def pinned_value(k, variant):
@@ -459,6 +494,36 @@ def _replay_pinned(h, work, r, seed=0):
         if all(res.startswith('PASS') for _, res, _ in reps) and reps:
             return False   # the end IS reachable natively: the symbolic side is inconsistent, not the code
     return False
+
+
+def _native_search(h, work, r, seed):
+    """the solver did not decide the obligation (time-out, or a model of the U/R abstraction that does not
+    reproduce): look natively, among the seeded candidate inputs, for an admitted input on which the harness
+    fails in both build profiles. Such an input is a reproduced violation of the property whatever the solver
+    said; it is reported as found by this search, not as a solver verdict. Nothing is ever concluded from a
+    search that finds no failure."""
+    tried = 0
+    for n, model in enumerate(_candidates(seed, n=24, hint=h.get('witness'))):
+        ipath = os.path.join(work, f'search_{n}.inputs')
+        write_inputs(ipath, model)
+        reps = native_replay(h['name'], ipath)
+        tried += 1
+        bad = [(p, res) for p, res, _ in reps if res.startswith('FAIL') or res.startswith('PANIC')]
+        if bad and len(bad) == len(reps):
+            r['replays'].append(dict(mode='native-search', inputs=describe_inputs(model),
+                                     results=[(p, res) for p, res, _ in reps], file=ipath))
+            r['undecided_detail'] = r['detail']
+            r['verdict'] = 'violation'
+            r['decided_in'] = 'native search after an inconclusive solver answer (' + r['detail'][:80] + ')'
+            r['detail'] = '; '.join(f'{p}: {res}' for p, res in bad)
+            rdir = os.path.join(BUILD, 'replays') if engine.REPO != '/repo' else os.path.join(VERIF, 'replays')
+            os.makedirs(rdir, exist_ok=True)
+            rp = os.path.join(rdir, f"{h['name']}.inputs")
+            shutil.copy(ipath, rp)
+            r['replay'] = rp
+            break
+        os.remove(ipath)
+    r['native_search'] = tried
 
 
 def _reach_witness(h, work, seed):
